@@ -79,6 +79,7 @@ impl Iterator for Forever {
                 }
                 p.waiter = Some(engine::my_tid());
             }
+            engine::log("signal-idle", 0, 0);
             engine::block(None, "signal-wait");
         }
     }
